@@ -18,19 +18,19 @@ CHECKS = {
          'Under the property\'s own assumptions enforced in virtual time (all synchronized, required outputs listed, delays < 100 ms, no faults, no skipping inside rejoined branches) an executable functional model of the pipeline gives the exact process() input sequence of every filter; the recorded histories are compared for equality (first frame included, nothing extra), incl. None, {}, lone Frame and callable results; callables must be evaluated once and in the same run slice as the publish.',
          'Sources go idle after their last frame so the tail is judged without racing the exit message; simulated transport as in C01.', '6 C03'),
  'C04': ('simnet', 'exploration',
-         'A synchronized consumer is stalled for 3 s / 30 s (thorough: 300 s) of virtual time at a generated point (sole consumer, one of several, behind one or two relays; required or not; producer faster/equal/slower). The transport log gives the number of further ids each upstream publisher publishes until the consumer resumes or has been silent for the connection timeout (bound 9 per hop), the transport\'s own gauge gives the number of distinct ids queued towards a consumer (bound 9 per hop of distance), and the same seed must give the same overrun for all stall lengths.',
+         'A synchronized consumer is stalled for 3 s / 30 s (thorough: 300 s) of virtual time at a generated point (sole consumer, one of several, behind one or two relays; required or not; producer faster/equal/slower; replicas with one configured id, ephemeral source listed first, non-blocking publisher, balanced feeder). The transport log gives the number of further ids each upstream publisher publishes until the consumer resumes or has been silent for the connection timeout (bound 9 per hop), the transport\'s own gauge gives the number of distinct ids queued towards a consumer (bound 9 towards the stalled consumer, 9 per hop of distance for relays blocked behind it, 20 for free-running siblings), and the same seed must give the same overrun for all stall lengths.',
          'Delays below the request interval, no loss (the property\'s preconditions); what fills a forgotten consumer\'s socket after the connection timeout is bounded by ZeroMQ\'s high-water mark, not by this property.', '6 C04'),
  'C05': ('simnet', 'exploration',
-         'Paired executions with and without ?/?? consumers (fast, >= 2 s per frame, stalled 1000 s, killed, restarted; lossy links; an ephemeral branch rejoined as ephemeral source), same seed, constant per-link latency: synchronized consumers\' input histories must be identical, no publication may be later than a per-join phase allowance (300 ms per ephemeral (re)join + 100 ms) while one wait for an ephemeral would cost >= 2 s, ?? listeners must never open a request socket or send a request, ephemeral deliveries must be complete and non-decreasing.',
+         'Paired executions with and without ?/?? consumers (fast, >= 2 s per frame, stalled 1000 s, killed, restarted; lossy links; an ephemeral branch rejoined as ephemeral source), same seed, constant per-link latency: synchronized consumers\' input histories must be identical, no publication may be later than a per-join phase allowance (400 ms per ephemeral (re)join + 200 ms) while one wait for an ephemeral would cost >= 2 s, ?? listeners must never open a request socket or send a request, ephemeral deliveries must be complete and non-decreasing. Variants: ephemeral source listed before/after the synchronized one, a ? listener whose request ids are ahead of the publisher, balanced publishers (the branch carrying the listeners must not be starved), long pairs beyond the transport buffering (PUB 20 + SUB 1000 messages), unpaired safety runs with random delays.',
          'Synchronized consumers are required outputs in both runs; constant link latencies; simulated transport as in C01.', '6 C05'),
  'C06': ('simnet', 'fault_enumeration',
          'Liveness is judged as bounded progress in virtual time. For chain / tee / tee-rejoin / balanced topologies a fault-free reference run gives N scheduler steps; victims x kill steps (sampled in quick, swept in thorough) x restart delays {0, 1 s, 7 s} are re-executed with the same seed: every live synchronized sink must get a new frame within ZMQ_CONN_TIMEOUT + 2 s after the last fault action (2 s otherwise), C02 ordering must still hold, a publisher must not publish while its required output is absent; also a non-required consumer dying for good.',
          'No finite run decides "eventually": the bound is a restatement; two simultaneous kills are not generated; simulated transport as in C01.', '6 C06'),
  'C07': ('simnet', 'exploration',
-         'Balanced splitter with 2-4 branches (worker speed profiles equal / one slow / all different / varying, optional second worker per branch, optional ?? watchers, delays to 95 ms and slow links): every message id on exactly one PUB socket, no original seen by two first-hop workers, joiner sets from one source and one id, joiner sequence strictly increasing.',
-         'The joiner is not required to see every frame; simulated transport as in C01.', '6 C07'),
+         'Balanced splitter with 2-4 branches (worker speed profiles equal / one slow / all different / varying, optional second worker per branch, optional ?? watchers, delays to 95 ms and slow links): every message id on exactly one PUB socket, no original seen by two first-hop workers, joiner sets from one source and one id, joiner sequence strictly increasing. The same generator and checkers also run on real pyzmq with one process per filter (sampled).',
+         'The joiner is not required to see every frame; simulated transport as in C01 (plus sampled real-socket runs).', '6 C07'),
  'C08': ('simnet', 'fault_enumeration',
-         'Injection matrix: lifecycle point {init, setup, process #k, deferred result, shutdown, external stop event} x how {exit(), exception, stop event} x per-filter propagate/obey policies x position in chain / tee / tee-rejoin (thorough: full 4x4 uniform policy matrix). Call log, the simulated network\'s socket table and the run() outcome give the local clauses; a reference closure over the topology graph gives who must have ended within 3 s and who must still run 10 s later; exit_after as seconds, m:s and @date-time on the virtual clock. Two structural propagation gaps are recorded as known findings.',
+         'Injection matrix: lifecycle point {before run(), init (before/after the MQ exists), setup, process #k, deferred result, shutdown, external stop event} x how {exit(), exception, stop event} x per-filter propagate/obey policies x position in chain / tee / tee-rejoin (thorough: full 4x4 uniform policy matrix). Call log, the simulated network\'s socket table and the run() outcome give the local clauses; a reference closure over the topology graph gives who must have ended within 3 s and who must still run 10 s later; exit_after as seconds, m:s and @date-time on the virtual clock. Two structural propagation gaps are recorded as known findings.',
          'Propagation is judged only once every link carries traffic; loop_exc default; simulated transport as in C01.', '6 C08'),
  'C11': ('seqmon', 'exploration',
          'One grammar per class (base Filter and the nine built-ins) renders an abstract configuration both as compact text (comma strings or lists of strings, ; topics, > mappings, ! options, whitespace variation, passwords with !) and as the structured form the class documentation declares equivalent; the real normalize_config is run on both and on its own output (N(N(c))==N(c), N(text)==N(struct), list/tuple distinction significant), and the real parse_topics/parse_options are checked as inverses of the renderers in all mapping modes.',
